@@ -6,7 +6,7 @@
      maintenance steps change nothing — and a scan is exactly that map in key order.
    Not in the theorem (decided by the differential check): reopen (C04), keyspace deletion (C12), compaction filters (C18),
    the iterator plumbing above scan_ents (ranges, prefix, reverse, two-ended consumption), key-value separation. *)
-From FJ Require Import Bytes Codec Reader Lsm Tracker Db LsmP TxP MapP OrderP DbOrderP SortP RefineP.
+From FJ Require Import Bytes Codec Reader Lsm Tracker Db Prog LsmP TxP MapP OrderP DbOrderP SortP RefineP RecoverInvP PlainP.
 From Coq Require Import Sorted.
 
 (* a write (insert / remove / batch item) with a seqno above everything in the active memtable: the point
@@ -83,16 +83,47 @@ Proof. exact db_refines. Qed.
 
 (* ... stated with the model's own read functions (t_get / t_scan: select the super-version for the instant, then first hit /
    merge): after EVERY program, for every keyspace object that is the registered one for its id, a point read at any instant
-   at or above the seqno counter (Keyspace::get / iter read at SeqNo::MAX) returns the reference map's value, and a scan
+   above the seqno counter (Keyspace::get / iter read at SeqNo::MAX) returns the reference map's value, and a scan
    returns the reference map as a strictly ascending list *)
 Theorem C01_reads_refine : forall (mode : dbmode) (ops : list wop) (I : N) (ks : kspace) (k : bytes),
   let d := fold_left wstep ops (db_init mode []) in
-  In ks (d_kss d) -> d_seqno d <= I -> kfind (d_kss d) (k_id ks) = Some ks ->
+  In ks (d_kss d) -> d_seqno d < I -> kfind (d_kss d) (k_id ks) = Some ks ->
   t_get (k_tree ks) k I = Some (srun (db_init mode []) ops sempty (k_id ks) k) /\
   exists sc, t_scan (k_tree ks) I = Some sc /\
              StronglySorted (fun a b => bytes_ltb (fst a) (fst b) = true) sc /\
              forall k' v, In (k', v) sc <-> srun (db_init mode []) ops sempty (k_id ks) k' = Some v.
 Proof. exact db_reads_refine. Qed.
+
+(* ---- the program interpreter whose observation lines are compared with the implementation (Prog.v db_step / run) ----
+   On a plain database every write / batch / clear / ingestion / rotate / step / drain / major / reopen operation of a program
+   is exactly one operation of the database model (or changes nothing, when it is refused), reads change nothing ... *)
+Theorem C01_interpreter_steps_are_model_steps : forall (d : db) (o : op),
+  d_mode d = MPlain -> plain_op o = true ->
+  fst (db_step as_is d o) = match rop_of d o with Some r => rstep d r | None => d end.
+Proof. exact plain_step_state. Qed.
+
+(* ... so every state it reaches on a program of such operations is reached by model operations, where the invariants hold *)
+Theorem C01_interpreter_states_reachable : forall (prog : list op) (d : db),
+  d_mode d = MPlain -> forallb plain_op prog = true -> exists rs, fst (run as_is d prog) = fold_left rstep rs d.
+Proof. exact plain_run_reachable. Qed.
+
+(* ... and in every such state (any program of writes, maintenance and reopens) the line printed for `get` is the point read
+   of the latest version, the line printed for `scan` (any direction, any range / prefix) is that consumption of the
+   restricted sorted map, whose entries are exactly the keys the point read finds — C01_refines_reference_map says which *)
+Theorem C01_get_observation : forall filters (rs : list rop) (h : N) (ks : kspace),
+  let d := fold_left rstep rs (db_init MPlain filters) in
+  handle_ks d h = Some ks -> d_seqno d < MAXSEQ ->
+  forall k, db_step as_is d (OGet VwNone h k) = (d, Ox (ObOpt (abs MAXSEQ (k_tree ks) k))).
+Proof. exact plain_get_obs. Qed.
+
+Theorem C01_scan_observation : forall filters (rs : list rop) (h : N) (ks : kspace),
+  let d := fold_left rstep rs (db_init MPlain filters) in
+  handle_ks d h = Some ks -> d_seqno d < MAXSEQ ->
+  forall dir r, exists sc,
+    db_step as_is d (OScan VwNone h dir r) = (d, Ox (ObList (consume dir (restrict r sc)))) /\
+    StronglySorted (fun a b => bytes_ltb (fst a) (fst b) = true) sc /\
+    forall k v, In (k, v) sc <-> abs MAXSEQ (k_tree ks) k = Some v.
+Proof. exact plain_scan_obs. Qed.
 
 (* maintenance is invisible: these five operations are the identity of the reference step, by definition of sstep *)
 Theorem C01_maintenance_invisible : forall (d : db) (m : smap) (id : N) (fuel : nat) (ev : bool),
@@ -127,6 +158,10 @@ Proof. exact refine_example. Qed.
 Print Assumptions C01_step_refines.
 Print Assumptions C01_refines_reference_map.
 Print Assumptions C01_reads_refine.
+Print Assumptions C01_interpreter_steps_are_model_steps.
+Print Assumptions C01_interpreter_states_reachable.
+Print Assumptions C01_get_observation.
+Print Assumptions C01_scan_observation.
 Print Assumptions C01_maintenance_invisible.
 Print Assumptions C01_scan_is_the_sorted_map.
 Print Assumptions C01_invariant_reachable.
